@@ -44,9 +44,27 @@ def rule_once(ctx, rep):
             seq = seq[-6:]
         return (dec, cnt, seq)
 
+    LASTS = ("Iterator>::last", "Iterator::last", "Vec::pop", "DoubleEndedIterator>::next_back", "DoubleEndedIterator::next_back")
+
     def edge(st, bb, succ):
         dec, cnt, seq = st
         si = switch_info(b, bb)
+        if si and si["kind"] == "disc" and si["subject"][0] == "place" and not si["subject"][1][1]:
+            # a value that was built as one variant a few lines up (`self.document_changed(uri, version, Some(text))`, spliced in): the test
+            # of it has one answer
+            d0 = b.single_def(si["subject"][1][0])
+            if d0 and d0[0] == "stmt" and d0[3][0] == "agg" and isinstance(d0[3][1], dict) and d0[3][1].get("variant") and d0[3][1].get("adt") in ("core::option::Option", "core::result::Result"):
+                if si["edges"].get(succ) != [d0[3][1]["variant"]]:
+                    return None
+        if si and si["kind"] == "disc" and si["subject"][0] == "call" and (si["subject"][1].callee or "").endswith(("Option::<T>::map", "Option::<T>::and_then", "Option::map", "Option::and_then")) and si["subject"][1].args:
+            # `.last().map(|change| change.text)`: Some exactly when there was a last change event
+            ap_ = op_place(si["subject"][1].args[0])
+            dl = b.single_def(b.root(ap_)[0]) if ap_ is not None else None
+            if dl and dl[0] == "call" and (dl[2].callee or "").endswith(LASTS):
+                arms = si["edges"].get(succ)
+                if arms:
+                    dec = dec | frozenset([("last-change", arms[0])])
+                return (dec, cnt, seq)
         if si and si["kind"] == "disc" and si["subject"][0] == "call":
             lab = cast_label(si["subject"][1])
             if lab:
@@ -589,6 +607,9 @@ IDENTITY_TEXT = ("alloc::string::String::as_str", "<alloc::string::String as cor
                  "<alloc::string::String as alloc::string::ToString>::to_string")
 
 
+_CTX = [None]
+
+
 def text_origin(b, operand, depth=12):
     """where does a text operand come from?  Follows moves, reborrows and identity conversions (IDENTITY_TEXT).  Returns
     ("param", n) | ("field", struct, name) | ("call", callee) | ("?", ...)"""
@@ -598,6 +619,27 @@ def text_origin(b, operand, depth=12):
             return ("const",)
         rt = b.root(p)
         fs = [x for x in rt[1] if isinstance(x, list) and x[0] == "f"]
+        if fs and fs[-1][3] == "core::option::Option" and len(fs) == 1:
+            # the payload of an Option that was made a few lines up: `Some(text)`, or `last().map(|change| change.text)`
+            if 1 <= rt[0] <= b.f["argc"]:
+                return ("param-some", rt[0])
+            d0 = b.single_def(rt[0])
+            if d0 and d0[0] == "stmt" and d0[3][0] == "agg" and isinstance(d0[3][1], dict) and d0[3][1].get("variant") == "Some" and d0[3][2]:
+                p = op_place(d0[3][2][0])
+                continue
+            if d0 and d0[0] == "call" and (d0[2].callee or "").endswith(("Option::map", "Option::<T>::map")) and len(d0[2].args) > 1 and _CTX[0] is not None:
+                cp = op_place(d0[2].args[1])
+                cd = b.single_def(cp[0]) if cp is not None and not cp[1] else None
+                if cd and cd[0] == "stmt" and cd[3][0] == "agg" and isinstance(cd[3][1], dict) and cd[3][1].get("k") == "closure":
+                    for cb in _CTX[0].prog.get(norm(cd[3][1]["def"])):
+                        for dd in cb.defs.get(0, []):
+                            if dd[0] == "stmt" and dd[3][0] == "use":
+                                q = op_place(dd[3][1])
+                                qr = cb.root(q) if q is not None else None
+                                qf = [x for x in (qr[1] if qr else []) if isinstance(x, list) and x[0] == "f"]
+                                if qr is not None and qr[0] == 2 and qf:
+                                    return ("field", qf[-1][3], qf[-1][2])
+            return ("field", fs[-1][3], fs[-1][2])
         if fs:
             return ("field", fs[-1][3], fs[-1][2])
         if 1 <= rt[0] <= b.f["argc"]:
@@ -646,10 +688,34 @@ def rule_doctext(ctx, rep, rid="R-C11-doctext"):
     Source.data.  At each, the text operand is the function's own text parameter (or the `text` field of the protocol structure),
     reached through moves and identity conversions only; any other call on the way (a normalisation, a trim) is reported."""
     r = rep.rule(rid, "the text of didOpen/didChange reaches Source.data unchanged: at every hand-over the operand is the incoming text itself "
-                      "(moves and identity conversions only)", floor=5, floor_what="hand-overs of the document text")
+                      "(moves and identity conversions only)", floor=4, floor_what="hand-overs of the document text")
+
+    def through_params(b, o, depth=2):
+        """the text is a parameter of a helper of the server (`document_changed(uri, version, Some(text))`): what the callers hand in"""
+        if o[0] not in ("param", "param-some") or depth == 0 or not norm(b.id).startswith("ironplcc::lsp::") or b.f.get("dk") == "Closure":
+            return o
+        outs = set()
+        for cb in ctx.prog.bodies.values():
+            if cb.f["crate"] != "ironplcc" or "::test" in norm(cb.id):
+                continue
+            for c in cb.calls():
+                if norm(c.callee or "") != norm(b.id) or len(c.args) < o[1]:
+                    continue
+                a = c.args[o[1] - 1]
+                if o[0] == "param":
+                    o2 = text_origin(cb, a)
+                else:
+                    ap = op_place(a)
+                    o2 = text_origin(cb, ["cp", [ap[0], list(ap[1]) + [["d", "Some", 1], ["f", 0, "0", "core::option::Option", "Some", "alloc::string::String"]]]]) if ap is not None else ("?", "arg")
+                outs.add(through_params(cb, o2, depth - 1))
+        if len(outs) == 1:
+            return next(iter(outs))
+        if outs and all(x[0] == "field" and x[2] == "text" and x[1].startswith("lsp_types::") for x in outs):
+            return sorted(outs)[0]
+        return o if not outs else ("?", "callers disagree: %s" % sorted(outs))
 
     def check(inst, b, c_or_loc, operand, want, what):
-        o = text_origin(b, operand)
+        o = through_params(b, text_origin(b, operand))
         where = loc_str(b.f, c_or_loc)
         ok = (want[0] == "param" and o == want) or (want[0] == "field" and o[0] == "field" and o[2] == want[1] and o[1].startswith("lsp_types::"))
         if ok:
@@ -660,6 +726,7 @@ def rule_doctext(ctx, rep, rid="R-C11-doctext"):
         else:
             r.finding(inst + "|text-not-forwarded", where, "the operand is %s, not the incoming text" % (o,))
     # 1. notification handlers
+    _CTX[0] = ctx
     n1 = 0
     for b in sorted(ctx.prog.bodies.values(), key=lambda x: x.id):
         if b.f["crate"] != "ironplcc" or "::test" in norm(b.id) or norm(b.id).startswith("ironplcc::lsp_project::"):
